@@ -268,6 +268,8 @@ func (d DevSet) Key() string {
 type ModelView struct {
 	Look map[string]MNode
 	Walk map[string]MNode
+	// Tombs (deviations only): paths where the loader keeps a whiteout node in the view's tree.
+	Tombs map[string]bool
 }
 
 type cutRec struct {
@@ -428,9 +430,14 @@ func RefOverlay(spec *ImageSpec, layers []int, dev DevSet, final bool) *ModelVie
 			}
 		}
 	}
-	mv := &ModelView{Look: map[string]MNode{}, Walk: map[string]MNode{}}
+	mv := &ModelView{Look: map[string]MNode{}, Walk: map[string]MNode{}, Tombs: map[string]bool{}}
 	for p, n := range b.nodes {
 		mv.Look[p] = *n
+	}
+	for t := range b.tombs {
+		if _, occupied := b.nodes[t]; !occupied {
+			mv.Tombs[t] = true
+		}
 	}
 	for _, p := range sortedKeys(mv.Look) {
 		ok := true
